@@ -144,6 +144,25 @@ impl TcpChannelTask {
         }
     }
 
+    /// Establish the physical layer on a connected stream (the TLS handshake for TLS channels).
+    ///
+    /// Like [`Self::connect`], this is raced against the command queue: requests submitted in the
+    /// meantime fail fast, and disabling or shutting down the channel ends the attempt instead of
+    /// waiting for a peer that may never answer.
+    async fn establish(
+        &mut self,
+        stream: TcpStream,
+    ) -> Result<Result<PhysLayer, std::io::Error>, StateChange> {
+        tokio::select! {
+            res = self.connection_handler.handle(stream, &self.host) => {
+                Ok(res)
+            }
+            res = self.client_loop.fail_requests() => {
+                Err(res)
+            }
+        }
+    }
+
     async fn try_connect_and_run(&mut self) -> Result<(), StateChange> {
         self.listener.update(ClientState::Connecting).get().await;
         match self.connect().await? {
@@ -156,7 +175,7 @@ impl TcpChannelTask {
                 if let Err(err) = stream.set_nodelay(true) {
                     tracing::warn!("unable to enable TCP_NODELAY: {}", err);
                 }
-                match self.connection_handler.handle(stream, &self.host).await {
+                match self.establish(stream).await? {
                     Err(err) => self.handle_failed_connection(err).await,
                     Ok(phys) => self.run_connection(phys).await,
                 }
